@@ -451,6 +451,7 @@ class MinMaxAggregator:
                     rest_vars.update(collect_ast(blit, "Variable"))
                 lits_with_vars.append(blit)
                 lits_without_vars.remove(blit)
+        rest_vars.discard(Variable(LOC, "_"))
         if unbound:
             log.info(f"Cannot translate {loc2str(agg.location)} as {[str(x) for x in unbound]} would be unsafe.")
             return [rule]
